@@ -68,6 +68,17 @@ def run(tier):
         cases.append({"id": len(cases), "model": m, "opts": [cvtcases.EPS_OPT] + list(opts_) + ["cvt:writegraph=graph.jsonl"], "answer": "status 0 ok\n", "files": {},
                       "tag": "gen:%s:%s:%s:%s:%s:k%s:%s" % (gm["kind"], gm["op"], gm["sh"], "-".join(gm["pat"]), gm["use"], gm["k"], name_),
                       "hdr": {"nv": len(m["vars"]), "ncons": len(m["cons"]) + len(m["lcons"]), "nobj": len(m["objs"])}})
+    # a second run into the same file: the export file of every third case exists before the run, holding the
+    # export of an earlier conversion (or something that is no export at all); the file has to describe this run only
+    first = drv.run_cases(exe, PID, cases[:8])
+    stale = next((r["graph_text"] for r in first if r.get("graph_text", "").count("\n") > 5), None)
+    if stale is None:
+        raise Broken("no export from the first cases to use as the earlier contents of the file")
+    nprior = 0
+    for c in cases:
+        if c["id"] % 3 == 1:
+            c["extra_files"] = {"graph.jsonl": stale if c["id"] % 2 else "this is no graph export\n{\"broken\": [1, 2\n"}
+            nprior += 1
     runs = drv.run_cases(exe, PID, cases)
     evs = []
     nrun = 0
@@ -137,6 +148,7 @@ def run(tier):
         "traces_validated_against_impl": nrun, "samples": [cases[0]["tag"], cases[-1]["tag"], evs[1:6]],
         "evaluations": nrun, "export_records_validated": len(evs), "runs_without_graph": skipped, "rejected_runs": nbad,
         "design_check": {"module": "MCGraph", "distinct_states": mc.distinct},
+        "runs_into_an_existing_file": nprior,
         "explanation": "every record of the cvt:writegraph export of each real conversion is consumed by the state machine Graph.tla (declaration before use, consecutive indices, exactly one status per stored constraint, link ranges inside the final item-class sizes, NL and delivered items all present) and the sequence of constraints marked final is compared with the AddConstraint calls the ModelAPI received (group and variables); names with JSON-hostile characters are included",
         "violations_new": nnew,
     }, time.time() - t0, violations=nnew,
